@@ -47,10 +47,10 @@ CHECKS = {
    text="Seeded UCI sessions of 3..60 commands over the whole command alphabet (before initialisation, during search, repeated, unknown words, blank lines, every declared option with valid / out-of-range / unknown values, quit or EOF) are run (a) in the hooked engine under schedule perturbation, the hook trace being validated by TLC: readyok before the next command and only for isready, no search output outside a search or after its bestmove, options applied only between searches, every go answered exactly once, plus the C10 monitor; (b) black-box in the ASan+UBSan build, where TLC checks exit status 0, one bestmove per go, one readyok per isready, every output line well-formed, no sanitizer report; (c) a running depth-limited search must give the identical result with and without setoption commands sent while it runs, and the new values must be in effect afterwards.",
    note="Trusted: TLC, Tr_Control.tla/Tr_Uci.tla, sched/vsched.cpp hooks, the output grammar in tools/checks/c05.py. Four genuine defects were found and fixed (known_findings.json)."),
  "C06": dict(cat="model_checking", tech="TLA+ time-control design model (TimeControl.tla) model-checked by TLC + TLC validation of hook traces of the real engine under a node-driven virtual clock (Tr_Time.tla)",
-   text="TimeControl.tla states the contract (envelope 1 <= soft <= hard <= budget, poll at most K ticks apart, stop rule) and TLC checks Deadline / prompt stop / prompt ponderhit for all small parameter values. The hooked engine is run under a virtual clock that advances only with searched nodes (deterministic, no wall clock) on log-uniformly drawn go parameters (wtime/btime 1..1e7, increments, movestogo, movetime, BufferTime 1..10000, Ponder, Threads 1..4, one-move and many-move roots; plain / stop / ponderhit / ponder+stop). TLC validates: the limits handed to the search (hook in startThread / ponderHit) satisfy the envelope with budget = movetime resp. max(1, clock - min(BufferTime, 9*clock/10)); bestmove no later than start + hard + slack; within slack after stop, and after ponderhit once the limits are exhausted.",
-   note="Trusted: TLC, TimeControl.tla/Tr_Time.tla, sched/vsched.cpp virtual clock. MaxNPS is not exercised (its sleep is real time). Slack = 3 polling intervals + 5 virtual ms."),
+   text="TimeControl.tla states the contract (envelope 1 <= soft <= hard <= budget, poll at most K ticks apart, stop rule) and TLC checks Deadline / prompt stop / prompt ponderhit for all small parameter values. The hooked engine is run under a virtual clock that advances only with searched nodes (deterministic, no wall clock) on log-uniformly drawn go parameters (wtime/btime 1..1e7, increments, movestogo, movetime, BufferTime 1..10000, Ponder, Threads 1..4, MaxNPS 0 / 150k..200M, UCI_LimitStrength, one-move and many-move roots; plain / stop / ponderhit / ponder+stop). TLC validates: the limits handed to the search (hook in startThread / ponderHit) satisfy the envelope with budget = movetime resp. max(1, clock - min(BufferTime, 9*clock/10)); bestmove no later than start + hard + slack; within slack after stop, and after ponderhit once the limits are exhausted.",
+   note="Trusted: TLC, TimeControl.tla/Tr_Time.tla, sched/vsched.cpp virtual clock. The virtual clock follows the nodes of the main search thread (the thread that polls the limits), so verdicts do not depend on OS scheduling of helper threads. MaxNPS is exercised only above the virtual clock's own rate (below it the engine sleeps in real time); UCI_LimitStrength with a high Elo likewise. Slack = 2 polling intervals of 1000 nodes + 5 virtual ms."),
  "C08": dict(cat="model_checking", tech="TLA+ two-word slot model (TTSlot.tla, TLC exhaustive) + index lemma (TTIndex.tla, Apalache, all sizes) + TLC validation of traces of the real table (Tr_TT.tla)",
-   text="TTSlot.tla models a slot as two independently ordered word accesses per store/load with XOR as symmetric difference; TLC exhausts 2 writers x 1 prober and proves HitIsAUnit (and refutes the un-xored variant as a vacuity control). TTIndex.tla states the index function for arbitrary sizes; Apalache discharges IndexSafe over unbounded integers. On the real TranspositionTable TLC validates: every distinct result of ~10^8 concurrent stores/probes by 2..16 threads on <=3 buckets is a catalogue unit stored for exactly that key; index records for 39 table sizes (1..256 MB, non powers of two, the reduced size with a resident tablebase) x boundary key bits equal the formula and are safe; mate scores stored at ply p and read at ply q shift by q-p; a resident tablebase region is byte-identical after 6M ordinary stores.",
+   text="TTSlot.tla models a slot as two independently ordered word accesses per store/load with XOR as symmetric difference; TLC exhausts 2 writers x 1 prober and proves HitIsAUnit (and refutes the un-xored and the data-word-read-twice variants as vacuity controls). TTIndex.tla states the index function for arbitrary sizes; Apalache discharges IndexSafe over unbounded integers. On the real TranspositionTable TLC validates: every distinct result of ~10^8 concurrent stores/probes by 2..16 threads on <=3 buckets is a catalogue unit stored for exactly that key; index records for 39 table sizes (1..256 MB, non powers of two, the reduced size with a resident tablebase) x boundary key bits equal the formula and are safe; mate scores stored at ply p and read at ply q shift by q-p; a resident tablebase region is byte-identical after 6M ordinary stores.",
    note="Trusted: TLC, Apalache (index lemma), TTSlot/TTIndex/Tr_TT specs, harness/h_tt.cpp. Hardware reordering of relaxed stores is covered by the model only."),
  "C19": dict(cat="model_checking", tech="TLA+ fixed-point specification of the book graph equations (BookGraph.tla) + TLC validation of graph dumps of the real BookBuild::Book",
    text="BookGraph.tla transcribes the defining equations of bookbuild.hpp (mutually consistent links, shortest depth, negamax with INVALID/IGNORE/mate negation and covered dropout moves, expansion costs for both book players, path errors over all parents). Seeded operation sequences (extend under random nodes incl. transpositions with extra parents and pre-existing children, search results incl. mate/0/IGNORE/INVALID, pending marks, PGN import, save/load) are applied to the real Book; after every operation (every k-th for books of hundreds of nodes) the whole graph is dumped and TLC evaluates FixedPoint on it, and requires a reloaded book to equal the saved graph.",
